@@ -15,6 +15,7 @@ import (
 	"sync/atomic"
 	"time"
 
+	"golang.org/x/perf/benchunit"
 	"golang.org/x/perf/cmd/benchstat/internal/benchtab"
 
 	"golang.org/x/perf/internal/verifh/hx"
@@ -180,8 +181,8 @@ type csvCell struct {
 }
 
 // parseCSVCells maps (table context, unit, row label, column tuple) to the cell content.
-func parseCSVCells(out []byte) map[string]csvCell {
-	cells := map[string]csvCell{}
+func parseCSVCells(out []byte) map[string][]csvCell {
+	cells := map[string][]csvCell{}
 	recs := splitCSVLines(out)
 	ctx := map[string]string{}
 	startCol := func(exp int) int {
@@ -250,7 +251,7 @@ func parseCSVCells(out []byte) map[string]csvCell {
 					cell.delta, cell.p = rec[sc+2], rec[sc+3]
 				}
 				key := strings.Join(ctxParts, ";") + "|" + unit + "|" + rec[0] + "|" + colTuple(exp)
-				cells[key] = cell
+				cells[key] = append(cells[key], cell) // distinct keys may print alike ("x","" and "","x")
 			}
 		}
 	}
@@ -259,20 +260,34 @@ func parseCSVCells(out []byte) map[string]csvCell {
 
 // compareCells: the same set of cells; every cell's centre and interval unchanged; delta and
 // p unchanged whenever the table's baseline column is the same one.
-func compareCells(a, b map[string]csvCell) string {
+func compareCells(a, b map[string][]csvCell) string {
 	if len(a) != len(b) {
 		return fmt.Sprintf("cell count %d vs %d", len(a), len(b))
 	}
-	for k, x := range a {
-		y, ok := b[k]
-		if !ok {
+	norm := func(l []csvCell) []csvCell {
+		l = append([]csvCell(nil), l...)
+		sort.Slice(l, func(i, j int) bool {
+			if l[i].centre != l[j].centre {
+				return l[i].centre < l[j].centre
+			}
+			return l[i].ci < l[j].ci
+		})
+		return l
+	}
+	for k, xs := range a {
+		ys, ok := b[k]
+		if !ok || len(xs) != len(ys) {
 			return "cell missing: " + k
 		}
-		if x.centre != y.centre || x.ci != y.ci {
-			return fmt.Sprintf("cell %s: %s %s vs %s %s", k, x.centre, x.ci, y.centre, y.ci)
-		}
-		if x.base == y.base && (x.delta != y.delta || x.p != y.p) {
-			return fmt.Sprintf("cell %s: delta %s %s vs %s %s", k, x.delta, x.p, y.delta, y.p)
+		xs, ys = norm(xs), norm(ys)
+		for i := range xs {
+			x, y := xs[i], ys[i]
+			if x.centre != y.centre || x.ci != y.ci {
+				return fmt.Sprintf("cell %s: %s %s vs %s %s", k, x.centre, x.ci, y.centre, y.ci)
+			}
+			if len(xs) == 1 && x.base == y.base && (x.delta != y.delta || x.p != y.p) {
+				return fmt.Sprintf("cell %s: delta %s %s vs %s %s", k, x.delta, x.p, y.delta, y.p)
+			}
 		}
 	}
 	return ""
@@ -430,4 +445,90 @@ func historyCheck(dir string, c *Case, args []string, run *Run) string {
 		}
 	}
 	return ""
+}
+
+// ---------------------------------------------------------------- concurrent API family (tidy cache)
+
+var (
+	tidyRaceBin  = os.Getenv("VERIF_C15_TIDY_RACE")
+	tidyPlainBin = os.Getenv("VERIF_C15_TIDY")
+)
+
+// tidyFamily: G goroutines, released together, tidy the same FRESH slow-path units (they contain
+// "ns"/"MB" but are none of the fast-path units, and are unique to this case) through
+// benchunit.Tidy and through separate benchfmt.Readers, in a fresh process (empty cache), with
+// the race-detector build and the plain build. Every result must equal the value a single
+// goroutine gets (computed here, sequentially); a race report, a wrong value or a crash is an S
+// hit with the units as replay.
+func tidyFamily(id, idx int) {
+	r := hx.NewRand(uint64(id)*104729 + 7)
+	g := 8
+	var units []string
+	for j := 0; j < 6; j++ {
+		switch r.Intn(4) {
+		case 0:
+			units = append(units, fmt.Sprintf("x%d-%d-ns/frame", id, j))
+		case 1:
+			units = append(units, fmt.Sprintf("MB%d_%d/frob", id, j))
+		case 2:
+			units = append(units, fmt.Sprintf("ns/op%d_%d", id, j))
+		default:
+			units = append(units, fmt.Sprintf("w%d-%d-MB/ns", id, j))
+		}
+	}
+	hx.Printf("pre %d idx=%d kind=tidy g=%d units=%s crashed=1 tag=tidyconc\n", id, idx, g, hx.HexListS(units))
+	hx.Flush()
+	hx.Printf("case %d kind=tidy g=%d units=%s tag=tidyconc\n", id, g, hx.HexListS(units))
+	want := map[string]string{}
+	for _, u := range units {
+		v, tu := benchunit.Tidy(3, u)
+		want[hx.HexS(u)] = hx.F64(v) + " " + hx.HexS(tu)
+	}
+	same, race, detail, crashed := 1, 0, "", ""
+	args := append([]string{fmt.Sprint(g)}, units...)
+	for _, b := range []struct {
+		bin    string
+		isRace bool
+		reps   int
+	}{{tidyRaceBin, true, 2}, {tidyPlainBin, false, 4}} {
+		if b.bin == "" {
+			same, detail = 0, "binary missing"
+			continue
+		}
+		for rep := 0; rep < b.reps; rep++ {
+			out, errb, code := runBinary(b.bin, ".", []string{"GORACE=halt_on_error=0 exitcode=66 atexit_sleep_ms=0"}, args...)
+			if b.isRace && (code == 66 || bytes.Contains(errb, []byte("DATA RACE"))) {
+				race = 1
+				detail = "race report"
+			} else if code != 0 {
+				same = 0
+				crashed = fmt.Sprintf("c15tidy race=%v exited %d: %s", b.isRace, code, firstPanicLine(errb))
+			}
+			n := 0
+			for _, l := range linesOf(out) {
+				f := strings.Fields(l)
+				if len(f) != 5 {
+					continue
+				}
+				n++
+				if want[f[2]] != f[3]+" "+f[4] {
+					same = 0
+					detail = fmt.Sprintf("goroutine %s api %s unit %s got %s %s want %s", f[1], f[0], f[2], f[3], f[4], want[f[2]])
+				}
+			}
+			if n != g*len(units) && code == 0 {
+				same = 0
+				detail = fmt.Sprintf("%d result lines, want %d", n, g*len(units))
+			}
+		}
+	}
+	if detail != "" {
+		hx.Printf("sobs %d tidy same=%d race=%d detail=%s\n", id, same, race, strings.ReplaceAll(detail, " ", "_"))
+	} else {
+		hx.Printf("sobs %d tidy same=%d race=%d\n", id, same, race)
+	}
+	if crashed != "" {
+		hx.Printf("crash %d %s\n", id, crashed)
+	}
+	hx.Flush()
 }
